@@ -19,9 +19,10 @@ const FIVE: [&str; 5] = ["GET", "PUT", "POST", "PATCH", "DELETE"];
 
 pub fn policies() -> Vec<CorsDesc> {
     let mut v = vec![];
-    for origin in ["*", ORIGIN] { for credentials in [false, true] { for ah in [0usize, 2] { for eh in [0usize, 1] { for ma in [None, Some(600u32)] {
-        v.push(CorsDesc { origin: origin.into(), credentials,
-            allow_headers: ["Content-Type", "X-Custom"][..ah].iter().map(|s| s.to_string()).collect(),
+    // allow-headers: not configured (the requested ones are echoed), two entries, configured with zero entries (usize::MAX)
+    for origin in ["*", ORIGIN] { for credentials in [false, true] { for ah in [0usize, 2, usize::MAX] { for eh in [0usize, 1] { for ma in [None, Some(600u32)] {
+        v.push(CorsDesc { origin: origin.into(), credentials, allow_headers_configured_empty: ah == usize::MAX,
+            allow_headers: ["Content-Type", "X-Custom"][..if ah == usize::MAX { 0 } else { ah }].iter().map(|s| s.to_string()).collect(),
             expose_headers: ["X-Exposed"][..eh].iter().map(|s| s.to_string()).collect(), max_age: ma });
     } } } } }
     v
@@ -115,6 +116,9 @@ fn check_response(ctx: &mut Ctx, policy: &CorsDesc, set: &[RouteSpec], shape: &s
                             let got_ah = list(p.header("Access-Control-Allow-Headers"));
                             if !policy.allow_headers.is_empty() {
                                 if got_ah != Some(policy.allow_headers.iter().cloned().collect()) { problems.push("preflight:allow-headers:configured".into()) }
+                            } else if policy.allow_headers_configured_empty {
+                                // configured, with no entry: nothing is advertised (an empty header or none) - in particular not the request's list
+                                if got_ah.as_ref().is_some_and(|s| !s.is_empty()) { problems.push("preflight:allow-headers:configured-empty".into()) }
                             } else if let Some(h) = r.acrh {
                                 if got_ah != list(Some(h)) { problems.push("preflight:allow-headers:echo".into()) }
                             }
